@@ -1076,9 +1076,20 @@ func nmNameCase(c *Ctx, es []nmEntry, eid int, class string) {
 	// byte-exact for every Info: after the repair Encode visits the language ids in increasing
 	// order, so the storage layout is a function of the Info (also beyond the capacity guard)
 	out := c.Case(Verdict, "names.enc", args, len(es) > 0)
-	if strings.HasPrefix(out, "panic") || out == "timeout" {
+	domOK := nmInDomain(es) && (eid == 1 || eid == 10)
+	if out == "panic" {
+		// the encoder refused (16-bit capacity of the format): the model must refuse too (verdict
+		// above) and refusal is what the property's predicate expects there (direct)
+		c.Stat("name_outcome", "refused")
+		if domOK {
+			c.Case(Direct, "names.namert", args, true)
+		}
 		return
 	}
+	if out == "timeout" {
+		return
+	}
+	c.Stat("name_outcome", "encoded")
 	b := mustHexNm(out)
 	if len(tags[1]) > 1 || len(tags[3]) > 1 {
 		c.Stat("name_enc_byte_exact", "several-tags-per-platform")
@@ -1091,7 +1102,7 @@ func nmNameCase(c *Ctx, es []nmEntry, eid int, class string) {
 	if len(b) < 40000 || r.Chance(1, 4) {
 		c.Case(Verdict, "names.dec", "b="+hx(b), len(es) > 0)
 	}
-	inDom := nmInDomain(es) && fits && (eid == 1 || eid == 10)
+	inDom := domOK // no capacity condition: beyond it the encoder refuses, which was handled above
 	c.Stat("name_in_domain", fmt.Sprint(inDom))
 	if inDom {
 		c.Case(Direct, "names.namert", args, len(es) > 0)
@@ -1221,10 +1232,11 @@ func nmNameTable(c *Ctx) {
 	}
 	// capacity of the record directory: 5460 records is the last count whose storage offset fits
 	c.Case(Direct, "names.namert", "eid=1 info=1|en|1000+5460|120", true)
+	c.Case(Direct, "names.namert", "eid=1 info=1|en|1000+5461|120", true) // one record too many: refused
 	c.Case(Direct, "names.namert", "eid=1 info=3|en-US|0+5000|120.121,1|en|0+400|122", true)
 	c.Stat("name_class", "directory-capacity")
 	// storage just below / at / above the 16-bit limit (strings of one repeated character)
-	for _, total := range []int{65534, 65535, 65536, 65537, 70000} {
+	for _, total := range []int{65534, 65535, 65536, 65537, 70000, 105536, 105540, 140000} {
 		// three Windows strings (2 bytes per unit) and one Mac string making up `total` bytes
 		a, b2 := 20000, 20000
 		rest := total - a - b2
@@ -1440,7 +1452,7 @@ func nmPost(c *Ctx) {
 		nmPostCase(c, []string{"a", long, "b"}, "name>255", false)
 	}
 	// capacity of format 2, on the real code (compact generator; the Lean side predicts "unchanged")
-	for _, nc := range [][2]int{{65535, 0}, {65535, 3000}, {65535, 65278}, {300, 300}, {258, 0}} {
+	for _, nc := range [][2]int{{65535, 0}, {65535, 3000}, {65535, 65278}, {65535, 65279}, {65535, 65535}, {300, 300}, {258, 0}} {
 		c.Case(Direct, "names.postrt", fmt.Sprintf("n=%d c=%d", nc[0], nc[1]), true)
 		c.Stat("post_class", fmt.Sprintf("capacity-n%d-c%d", nc[0], nc[1]))
 	}
